@@ -24,13 +24,14 @@ Accepted subset (anything else raises TranslateError with file:line):
              self.grammar[t][i] of it - represented by its 'prob', the only key the model's
              table has).  Parameter and return types are given by SPECS (checked against the
              `def` line: names, order, defaults); the types of locals are inferred.
-  statements x = e;  x *= e (probabilities);  x += e (ints);  x = copy.copy(y) / x = [] /
-             x = [comprehension] / x = self.helper(...) returning such a list (fresh local
-             lists);  x[i] = e and x.append(e) on such a fresh list only, as long as it
-             has not been stored anywhere;  if / elif / else (a conditional that is
-             followed by more statements either leaves on one side or contains no
-             control flow);  for p, x in enumerate(l) / for x in l / for p in range(a, b)
-             (no else; the iterated list is not touched in the body);  continue;
+  statements x = e;  a, b = node;  x *= e (probabilities);  x += e (ints);  x = copy.copy(y) /
+             list(y) / y.copy() / y[:] / x = [] / x = [comprehension] / x = self.helper(...)
+             returning such a list (fresh local lists);  x[i] = e and x.append(e) on such a
+             fresh list only, as long as it has not been stored anywhere;  if / elif / else
+             (a conditional that is followed by more statements either leaves on one side
+             or contains no control flow);  for p, x in enumerate(l) / for x in l /
+             for p in range(a, b) / range(b), where x may be a pair target `(a, b)` (no
+             else; the iterated list is not touched in the body);  continue;
              return [e];  save_function(e) and the call of the function itself as
              statements in the function SPECS marks as recursive;  a docstring;  pass.
              An item dict built key by key: d = {some of the item keys: ...} ('pt': []
@@ -49,7 +50,8 @@ Accepted subset (anything else raises TranslateError with file:line):
              `and` / `or` and in the branches of `e1 if c else e2` (tracked through copies,
              enumerate and the parameters of inlined helpers);  a + (-1), (-1) + a as a - 1;
              a < b, a <= b, a > b, a >= b, a == b, a != b between two probabilities or
-             two ints;  p * q on two probabilities;  not e;  e1 and e2, e1 or e2;  the
+             two ints, where `a - 1 OP b` with a not known > 0 is translated as
+             `a OP b + 1` (the same over the integers: len(l) - 1 == i, i < len(l) - 1);  p * q on two probabilities;  not e;  e1 and e2, e1 or e2;  the
              truthiness of an int (!= 0) or list (non-empty) as a condition;
              e1 if c else e2;  (a, b);  the dict literal with exactly the three item keys;
              [e for x in l] / [e for x in l if c] over a pt or a 'replacements' list (map /
